@@ -32,6 +32,9 @@ pub fn check_case(body: &[u8], filters: &[FilterSpec], headers: &Headers, stats:
     }
     let wrong: Vec<(&Vec<u8>, &Vec<usize>)> = ex.finals.iter().filter(|(out, _)| **out != reference).collect();
     if wrong.is_empty() {
+        if ex.capped {
+            return vec![("state-explosion".to_string(), format!("more than {} distinct filter states for body {:?}: exploration of this case is incomplete", crate::engines::chunk::MAX_STATES_PER_CASE, String::from_utf8_lossy(body)), vec![])];
+        }
         return vec![];
     }
     let mut out = Vec::new();
@@ -162,6 +165,10 @@ pub fn run(tier: Tier) -> i32 {
             Err((loc, msg)) => vec![(format!("panic:{loc}"), format!("the filter chain panicked at {loc}: {msg}; body {:?}", String::from_utf8_lossy(&c.body)), vec![])],
         };
         for (sig, what, hist) in checked {
+            if sig == "state-explosion" {
+                ctx.set_capped(what);
+                continue;
+            }
             let cuts = hist.iter().filter(|k| **k > 0).count() as u64;
             ctx.report(Violation {
                 signature: sig,
